@@ -1,12 +1,53 @@
 import GrinVerif.Drv.Common
-/-! Driver glue for the `conc` domain (line protocol handler). -/
+import GrinVerif.Model.Conc
+import GrinVerif.Gen.Locks
+/-! Driver glue for the `conc` domain (C17). The tie of this property to the code is mostly the
+regenerated lock table; the lines handled here connect the harness to that table:
+
+* `conc opclass <op> => <class>`: the lock class the harness assumes for an op it drives
+  (`lockfree` / `read-hp` / `read-ts` / `write`) against the class computed from the table;
+* `conc sim seed=<n> progs=<op+op+…,op+…,…> => finished`: the per-thread op sequences the harness
+  really ran, replayed as lock-event programs from the table on the model's transition system
+  under strict writer preference with 3 pseudo-random schedules: the real threads finished, the
+  model must not get stuck either (and the programs must pass `respectsOrder`);
+* the final (head, unspent set) of a concurrent run is compared by the `chain` domain
+  (`chain obs <twin> => …`), not here. -/
 namespace GV.Drv.ConcD
-open GV GV.Drv
+open GV GV.Drv GV.Conc
 
 structure St where
-  dummy : Unit := ()
+  sims : Nat := 0
 
-def handle (st : St) (_args : List String) (_impl : String) : St × Verdict :=
-  (st, .unknown)
+def kvArg (args : List String) (k : String) : Option String :=
+  (args.find? (·.startsWith (k ++ "="))).map (fun a => (a.drop (k.length + 1)).toString)
+
+def progOf (names : List String) : Option (List LockEv) :=
+  (names.mapM (fun n => GV.Gen.lockTable.lookup n)).map List.flatten
+
+def simAll (progs : List (List LockEv)) (seed : Nat) : String :=
+  if !(progs.all respectsOrder) then "order-violated"
+  else
+    let total := (progs.map List.length).sum
+    let s0 : State Lock := init progs
+    let r := [seed, seed + 7919, seed * 31 + 1].filterMap (fun sd => simulate (total + 1) sd s0)
+    match r with
+    | [] => "finished"
+    | i :: _ => s!"model-stuck-thread-{i}"
+
+def handle (st : St) (args : List String) (impl : String) : St × Verdict :=
+  match args with
+  | ["opclass", op] =>
+    match GV.Gen.lockTable.lookup op with
+    | some p => (st, cmpModel (opClass p) impl)
+    | none => (st, .diff "op-not-in-lock-table")
+  | "sim" :: rest =>
+    match (kvArg rest "seed").bind String.toNat?, kvArg rest "progs" with
+    | some seed, some ps =>
+      let threads := (ps.splitOn ",").map (fun t => (t.splitOn "+").filter (fun x => !x.isEmpty))
+      match threads.mapM progOf with
+      | some progs => ({ st with sims := st.sims + 1 }, cmpModel (simAll progs seed) impl)
+      | none => (st, .diff "op-not-in-lock-table")
+    | _, _ => (st, .unknown)
+  | _ => (st, .unknown)
 
 end GV.Drv.ConcD
